@@ -79,6 +79,56 @@ Proof.
   destruct Hl01 as [-> | ->]; reflexivity.
 Qed.
 
+(* ---------------------------------------------------------------- Tree::num_nodes on a laid-out sub-tree *)
+Definition kidsf2 (c0 c1 : ctree) : list ctree :=
+  (match c0 with CU => [] | _ => [c0] end) ++ (match c1 with CU => [] | _ => [c1] end).
+Definition eidx (e : nat * nat * nat) : nat := snd (fst e).
+Lemma kidsf2_stack d c0 c1 rest :
+  map eidx (push_kids d (somes (rev [cidx c0; cidx c1])) 0 rest) = map ridx (kidsf2 c0 c1) ++ map eidx rest.
+Proof. destruct c0, c1; reflexivity. Qed.
+Lemma kidsf2_ne c0 c1 : Forall (fun t => t <> CU) (kidsf2 c0 c1).
+Proof. destruct c0, c1; cbn [kidsf2 app]; repeat constructor; discriminate. Qed.
+Lemma in_kidsf2 t c0 c1 : In t (kidsf2 c0 c1) -> t = c0 \/ t = c1.
+Proof. destruct c0, c1; cbn [kidsf2 app In]; intuition. Qed.
+Lemma fidxs_kidsf2 c0 c1 F : fidxs (kidsf2 c0 c1 ++ F) = (idxs c0 ++ idxs c1) ++ fidxs F.
+Proof.
+  unfold fidxs. rewrite flat_map_app. f_equal.
+  destruct c0, c1; cbn [kidsf2 app flat_map idxs]; rewrite ?app_nil_r; reflexivity.
+Qed.
+
+Lemma dfs_count_forest : forall fuel F a stack lp n,
+  Forall (fun t => t <> CU) F -> (forall t, In t F -> exists par, wfn a par t) ->
+  map eidx stack = map ridx F -> (length (fidxs F) < fuel)%nat ->
+  dfs_count fuel a (mkdfs stack lp) n = Some (n + length (fidxs F))%nat.
+Proof.
+  induction fuel as [|fuel IH]; intros F a stack lp n Hne Hwf Hst Hlen; [lia|].
+  destruct F as [|t F].
+  - destruct stack; [|discriminate]. cbn. rewrite Nat.add_0_r. reflexivity.
+  - apply Forall_cons_iff in Hne as [Ht HneF]. destruct t as [|j lf f s c0 c1]; [congruence|].
+    destruct stack as [|[[d j'] r] rest]; [discriminate|]. cbn [map eidx fst snd ridx] in Hst. inversion Hst as [[Hj Hrest]]. subst j'.
+    destruct (Hwf _ (or_introl eq_refl)) as [par Hw]. cbn [wfn] in Hw. destruct Hw as [Hc [_ [H0 H1]]].
+    cbn [dfs_count dfs_next d_stack]. rewrite Hc. cbn [ae_cell c_children].
+    rewrite (IH (kidsf2 c0 c1 ++ F)).
+    + rewrite fidxs_kidsf2. change (fidxs (CN j lf f s c0 c1 :: F)) with (j :: (idxs c0 ++ idxs c1) ++ fidxs F).
+      cbn [length]. f_equal. lia.
+    + apply Forall_app. split; [apply kidsf2_ne | exact HneF].
+    + intros t Ht0. apply in_app_or in Ht0 as [Ht0|Ht0]; [|apply Hwf; right; exact Ht0].
+      exists (Some j). apply in_kidsf2 in Ht0 as [->| ->]; assumption.
+    + rewrite kidsf2_stack, map_app, Hrest. reflexivity.
+    + rewrite fidxs_kidsf2. change (fidxs (CN j lf f s c0 c1 :: F)) with (j :: (idxs c0 ++ idxs c1) ++ fidxs F) in Hlen.
+      cbn [length] in Hlen. lia.
+Qed.
+Lemma num_nodes_ok a par j lf f s c0 c1 : wfn a par (CN j lf f s c0 c1) -> NoDup (idxs (CN j lf f s c0 c1)) ->
+  exists n, ae_num_nodes a j = Some n.
+Proof.
+  intros Hw Hnd. unfold ae_num_nodes. eexists.
+  apply (dfs_count_forest (S (length a)) [CN j lf f s c0 c1] a [(0%nat, j, 0%nat)] 0%nat 0%nat).
+  - constructor; [discriminate | constructor].
+  - intros t [<-|[]]. exists par. exact Hw.
+  - reflexivity.
+  - pose proof (wfn_size_bound a _ par Hw Hnd) as B. unfold fidxs. cbn [flat_map]. rewrite app_nil_r, csize_idxs. lia.
+Qed.
+
 (* ---------------------------------------------------------------- the loop body on a child *)
 Lemma set_state_spec A j f s par ch lf s2 : aget A j = Some (ae_cell f s par ch lf) ->
   ae_set_state A j s2 = Some (aset A j (Some (ae_cell f s2 par ch lf))).
@@ -89,7 +139,7 @@ Lemma step_child o tol root A ps q junk d j nrem rest lp k rem fj cl chj lfj i p
   rev ps = q ++ junk -> length q = d ->
   aget A j = Some (ae_cell fj (c_state cl) (Some i) chj lfj) ->
   aget A i = Some (ae_cell p st pari chi lfi) -> find_label chi j = Some l -> (l = 0 \/ l = 1)%nat ->
-  j <> root -> st_ne st ->
+  j <> root -> st_ne st -> (exists nn, ae_num_nodes A j = Some nn) ->
   visit o tol st (q ++ [lrow l p]) (lrow l p) cl k = (s, k1, fr, skip) ->
   ae_step o tol root (mk A ps ((S d, j, nrem) :: rest) lp (length ps) k rem) =
   if fr then
@@ -105,7 +155,7 @@ Lemma step_child o tol root A ps q junk d j nrem rest lp k rem fj cl chj lfj i p
                  (if skip then rest else push_kids (S (S d)) (somes (rev chj)) 0 rest)
                  (if skip then 0%nat else length (somes (rev chj))) (S d) k1 rem).
 Proof.
-  intros Hr Hq Hj Hi Hl Hl01 Hjr Hst Hv. unfold ae_step, mk. cbn [m_ar m_gen m_k m_rem].
+  intros Hr Hq Hj Hi Hl Hl01 Hjr Hst [nn Hnn] Hv. unfold ae_step, mk. cbn [m_ar m_gen m_k m_rem].
   rewrite (pg_next_child A ps q junk d j nrem rest lp fj (c_state cl) chj lfj i p st pari chi lfi l Hr Hq Hj Hi Hl Hl01).
   destruct (Nat.eqb_spec j root) as [|_]; [contradiction|]. rewrite Hj. cbn [ae_cell c_val ac_state].
   unfold visit in Hv. destruct (c_state cl) as [| | |ws] eqn:Ecs.
@@ -115,9 +165,9 @@ Proof.
     cbn [g_preds]. rewrite Hi. cbn [ae_cell c_val ac_state rev]. rewrite rev_involutive.
     unfold ae_set_state. rewrite Hj. cbn [ae_cell c_val ac_aff c_parent c_children c_leaf].
     destruct st as [| | |[|w ws]]; try (exfalso; apply Hst; reflexivity); rewrite Ec;
-      destruct (is_infeas s) eqn:Ei; unfold pg_skip, dfs_skip; cbn [g_iter g_preds g_last_depth d_last_push d_stack];
+      destruct (is_infeas s) eqn:Ei; rewrite ?Hnn; unfold pg_skip, dfs_skip; cbn [g_iter g_preds g_last_depth d_last_push d_stack];
       rewrite ?skipn_push_kids; destruct (Nat.eqb nrem 0); try reflexivity.
-  - inversion Hv; subst. unfold pg_skip, dfs_skip. cbn [g_iter g_preds g_last_depth d_last_push d_stack].
+  - inversion Hv; subst. rewrite Hnn. unfold pg_skip, dfs_skip. cbn [g_iter g_preds g_last_depth d_last_push d_stack].
     rewrite skipn_push_kids. reflexivity.
   - inversion Hv; subst. reflexivity.
   - inversion Hv; subst. reflexivity.
